@@ -12,6 +12,10 @@ import (
 	lendtypes "github.com/comdex-official/comdex/x/lend/types"
 	liqV2types "github.com/comdex-official/comdex/x/liquidationsV2/types"
 	markettypes "github.com/comdex-official/comdex/x/market/types"
+	auctiontypes "github.com/comdex-official/comdex/x/auction/types"
+	esmtypes "github.com/comdex-official/comdex/x/esm/types"
+	liquiditytypes "github.com/comdex-official/comdex/x/liquidity/types"
+	tokenminttypes "github.com/comdex-official/comdex/x/tokenmint/types"
 	vaulttypes "github.com/comdex-official/comdex/x/vault/types"
 
 	"vh/sim"
@@ -99,6 +103,20 @@ func (w *world) addApp(name, short string) uint64 {
 	panic("app not found")
 }
 
+func (w *world) addAppGov(name, short string, govAsset uint64, recipient string) uint64 {
+	w.must(w.App.AssetKeeper.AddAppRecords(w.Ctx, assettypes.AppData{Name: name, ShortName: short, MinGovDeposit: sdk.NewInt(0),
+		GovTimeInSeconds: 0, GenesisToken: []assettypes.MintGenesisToken{{AssetId: govAsset, GenesisSupply: sdk.NewInt(1000000000000),
+			IsGovToken: true, Recipient: recipient}}}), "app "+name)
+	apps, _ := w.App.AssetKeeper.GetApps(w.Ctx)
+	for _, a := range apps {
+		if a.Name == name {
+			w.app[name] = a.Id
+			return a.Id
+		}
+	}
+	panic("app not found")
+}
+
 func (w *world) rates(assetID uint64, uopt, base, s1, s2 string, stable bool, sb, ss1, ss2, ltv, lt, lp, lb, rf string, cAsset uint64) {
 	w.must(w.App.LendKeeper.AddAssetRatesParams(w.Ctx, lendtypes.AssetRatesParams{AssetID: assetID, UOptimal: dec(uopt), Base: dec(base),
 		Slope1: dec(s1), Slope2: dec(s2), EnableStableBorrow: stable, StableBase: dec(sb), StableSlope1: dec(ss1), StableSlope2: dec(ss2),
@@ -138,8 +156,9 @@ func (w *world) base(uopt2 string) {
 		[]*lendtypes.AssetDataPoolMapping{p1a1, p1a2, p1a3})
 	w.ratesPool(a4, "0.65", "0.002", "0.08", "1.5", "0.6", "0.65", "0.05", "0.05", "0.2", c4, "osmo", "OSMO-ATOM-CMST",
 		[]*lendtypes.AssetDataPoolMapping{p2a4, p1a1, p1a3})
+	gov := w.addAsset("HARBOR", "uharbor", false, 0)
 	w.addApp("cswap", "cswap")
-	w.addApp("harbor", "hbr")
+	w.addAppGov("harbor", "hbr", gov, w.user("u4"))
 	w.addApp("commodo", "cmdo")
 
 	w.must(w.App.AssetKeeper.AddPairsRecords(w.Ctx, assettypes.Pair{AssetIn: a2, AssetOut: a3}), "pair")
@@ -199,3 +218,52 @@ func (w *world) vaults(n int) {
 func (w *world) block(dt time.Duration) sim.BlockResult { return w.NextBlock(dt) }
 
 func (w *world) note(format string, a ...interface{}) { w.notes = append(w.notes, fmt.Sprintf(format, a...)) }
+
+// mintGov: genesis minting of harbor's governance token (real MsgMintNewTokens) - creates the app's token-mint data.
+func (w *world) mintGov() {
+	w.deliver(&tokenminttypes.MsgMintNewTokensRequest{From: w.user("u4"), AppId: w.app["harbor"], AssetId: w.asset["uharbor"]}, "mint gov")
+}
+
+// collector configuration of harbor for its debt asset (asset 3): lookup table + auction mapping (wasm-binding entry points).
+func (w *world) collector(surplus, debt bool, surplusThreshold, debtThreshold, lot int64) {
+	w.must(w.App.CollectorKeeper.WasmSetCollectorLookupTable(w.Ctx, &bindings.MsgSetCollectorLookupTable{AppID: w.app["harbor"],
+		CollectorAssetID: w.asset["uasset3"], SecondaryAssetID: w.asset["uharbor"], SurplusThreshold: sdk.NewInt(surplusThreshold),
+		DebtThreshold: sdk.NewInt(debtThreshold), LockerSavingRate: dec("0.1"), LotSize: sdk.NewInt(lot), BidFactor: dec("0.01"),
+		DebtLotSize: sdk.NewInt(2000000)}), "collector lookup")
+	w.must(w.App.CollectorKeeper.WasmSetAuctionMappingForApp(w.Ctx, &bindings.MsgSetAuctionMappingForApp{AppID: w.app["harbor"],
+		AssetIDs: w.asset["uasset3"], IsSurplusAuctions: surplus, IsDebtAuctions: debt, IsDistributor: false,
+		AssetOutOraclePrices: false, AssetOutPrices: 1000000}), "auction mapping")
+}
+
+// esm: emergency-shutdown parameters of harbor, deposit of governance tokens up to the target, execution (real messages).
+func (w *world) esmParams(coolOff uint64) {
+	w.must(w.App.EsmKeeper.AddESMTriggerParamsForApp(w.Ctx, &bindings.MsgAddESMTriggerParams{AppID: w.app["harbor"],
+		TargetValue: coin("uharbor", 1000000), CoolOffPeriod: coolOff, AssetID: []uint64{w.asset["uasset3"]}, Rates: []uint64{1000000}}), "esm params")
+}
+
+func (w *world) esmExecute() {
+	w.deliver(&esmtypes.MsgDepositESM{AppId: w.app["harbor"], Depositor: w.user("u4"), Amount: coin("uharbor", 1000000)}, "esm deposit")
+	w.deliver(&esmtypes.MsgExecuteESM{AppId: w.app["harbor"], Depositor: w.user("u4")}, "esm execute")
+}
+
+// v1: harbor also white-listed in the V1 liquidation module with V1 auction parameters (a chain that still has V1 state).
+func (w *world) v1enable() {
+	w.must(w.App.LiquidationKeeper.WasmWhitelistAppIDLiquidation(w.Ctx, w.app["harbor"]), "v1 whitelist")
+	w.App.AuctionKeeper.SetAuctionParams(w.Ctx, auctiontypes.AuctionParams{AppId: w.app["harbor"], AuctionDurationSeconds: 300,
+		Buffer: dec("1.2"), Cusp: dec("0.6"), Step: sdk.NewInt(1), PriceFunctionType: 1, SurplusId: 1, DebtId: 2, DutchId: 3,
+		BidDurationSeconds: 300})
+}
+
+// liquidity: cswap pair 1 (asset1/asset2) with a basic pool, deposit / withdraw requests and limit orders (real messages).
+func (w *world) liquidity(lifespan time.Duration) {
+	cs := w.app["cswap"]
+	w.deliver(liquiditytypes.NewMsgCreatePair(cs, w.Users["u1"], "uasset1", "uasset2"), "create pair")
+	w.deliver(liquiditytypes.NewMsgCreatePool(cs, w.Users["u1"], 1, sdk.NewCoins(coin("uasset1", 1000000000), coin("uasset2", 1000000000))), "create pool")
+	w.deliver(liquiditytypes.NewMsgDeposit(cs, w.Users["u2"], 1, sdk.NewCoins(coin("uasset1", 50000000), coin("uasset2", 50000000))), "deposit req")
+	w.deliver(liquiditytypes.NewMsgLimitOrder(cs, w.Users["u3"], 1, liquiditytypes.OrderDirectionBuy, coin("uasset2", 1100000), "uasset1",
+		dec("1.0"), sdk.NewInt(1000000), lifespan), "buy order")
+	w.deliver(liquiditytypes.NewMsgLimitOrder(cs, w.Users["u2"], 1, liquiditytypes.OrderDirectionSell, coin("uasset1", 3030000), "uasset2",
+		dec("1.05"), sdk.NewInt(3000000), lifespan), "sell order (rests)")
+	w.deliver(liquiditytypes.NewMsgLimitOrder(cs, w.Users["u4"], 1, liquiditytypes.OrderDirectionBuy, coin("uasset2", 600000), "uasset1",
+		dec("0.95"), sdk.NewInt(500000), lifespan), "buy order (rests)")
+}
